@@ -404,15 +404,15 @@ fn e_chunk(ci: u64, ctx: &mut Ctx) -> Result<(), Failure> {
 pub fn streams() -> Vec<Stream> {
     vec![Stream {
         name: "chunks",
-        kind: Kind::Enum { count: |t: Tier| (seeds::examples().len() as u64 + t.pick(300, 5000)).div_ceil(CHUNK), complete: |_| false, f: e_chunk },
+        kind: Kind::Enum { count: |t: Tier| (seeds::examples().len() as u64 + t.pick(300, 2500)).div_ceil(CHUNK), complete: |_| false, f: e_chunk },
         isolate: false,
-    }, Stream { name: "history", kind: Kind::Tape { cases: |t: Tier| t.pick(400, 12_000), max_len: 4000, f: s_history }, isolate: false }]
+    }, Stream { name: "history", kind: Kind::Tape { cases: |t: Tier| t.pick(400, 4_000), max_len: 4000, f: s_history }, isolate: false }]
 }
 
 pub fn def() -> PropertyDef {
     PropertyDef {
         id: "C19",
-        rule: "programs = the shipped examples + 300 (thorough 5000) generated programs, every fifth one a near-miss edit (often rejected, for the error side), one per chunk a program of 300-700 statements whose encoding is several KiB long, in chunks of 16 x {debug off, on}. Per chunk: 5 in-process compilations of every program (fresh CompiledProgram each, interleaved with the other programs of the chunk) must give identical commit encodings and CMRs; 6 (thorough 32) separately started processes (each with its own hash seeds) must report the same digest of encoding + CMR, or the same error status; `simc FILE [--debug]` built from /repo must print `Program:` + base64 of exactly the library's commit encoding and exit 0 when the library returns Ok, and exit non-zero with a non-empty stderr and no `Program:` line when the library returns Err. stream history (one process per case): a generated program - one in four a long one of 300-700 statements, 15-35 kB of text - is compiled (debug on, then off), then the process does 150-400 (long program: 20-80) other things with the library: compilations of sources that are rejected at different stages (list bound not a power of two, incompatible match arms, oversized array size, literal out of range, undefined name, grammar error, token mutants and truncations of the program; each nested 0-47 blocks deep), value / type / witness-module / JSON parsing, a shipped example compiled, satisfied and run; then the program again (debug off, then on): same bytes and CMR, or the same error status. evaluations = compilations compared + simc runs. Non-trivial = accepted program with >= 3 functions / aliases / witnesses (so the hash maps have something to reorder), debug on; distinct by digest of the text.",
+        rule: "programs = the shipped examples + 300 (thorough 2500) generated programs, every fifth one a near-miss edit (often rejected, for the error side), one per chunk a program of 300-700 statements whose encoding is several KiB long, in chunks of 16 x {debug off, on}. Per chunk: 5 in-process compilations of every program (fresh CompiledProgram each, interleaved with the other programs of the chunk) must give identical commit encodings and CMRs; 6 (thorough 32) separately started processes (each with its own hash seeds) must report the same digest of encoding + CMR, or the same error status; `simc FILE [--debug]` built from /repo must print `Program:` + base64 of exactly the library's commit encoding and exit 0 when the library returns Ok, and exit non-zero with a non-empty stderr and no `Program:` line when the library returns Err. stream history (one process per case): a generated program - one in four a long one of 300-700 statements, 15-35 kB of text - is compiled (debug on, then off), then the process does 150-400 (long program: 20-80) other things with the library: compilations of sources that are rejected at different stages (list bound not a power of two, incompatible match arms, oversized array size, literal out of range, undefined name, grammar error, token mutants and truncations of the program; each nested 0-47 blocks deep), value / type / witness-module / JSON parsing, a shipped example compiled, satisfied and run; then the program again (debug off, then on): same bytes and CMR, or the same error status. evaluations = compilations compared + simc runs. Non-trivial = accepted program with >= 3 functions / aliases / witnesses (so the hash maps have something to reorder), debug on; distinct by digest of the text.",
         assumptions: &["an order dependence whose probability per process is tiny can be missed: N processes only give 1 - 2^-N confidence for a two-way ordering"],
         streams,
         health: &[],
